@@ -29,10 +29,11 @@ def main():
     ap.add_argument("--tier", default="quick")
     ap.add_argument("--skip-baseline", action="store_true")
     ap.add_argument("--src", default=SRC)
+    ap.add_argument("--round", default="")
     a = ap.parse_args()
     pid = a.prop.upper()
     src = os.path.join(a.src, pid, f"change{a.k}")
-    sid = f"{pid}-s{a.k}"
+    sid = f"{pid}-s{a.k}" if not a.round else f"{pid}-r{a.round}s{a.k}"
     wt = f"/tmp/sv_{sid}"
     sh(["git", "-C", "/repo", "worktree", "remove", "--force", wt])
     r = sh(["git", "-C", "/repo", "worktree", "add", "--detach", wt, "HEAD"])
